@@ -545,7 +545,30 @@ fn gen_case(rng: &mut Rng, want_external: Option<bool>) -> Sexp {
                     1 => gen_of(super::compext::ops(), "external_decompose_small", rng),
                     _ => gen_of(super::headpred::ops(), "external_roles", rng),
                 };
-                let Ok(task) = x::parse_task(&e) else { continue };
+                let Ok(mut task) = x::parse_task(&e) else { continue };
+                // 14%: a positive loop through an OUTPUT predicate (public recursion): the program is not tight
+                // and nothing else is wrong with it, so --bypass-tightness decides between problems and an error
+                let mut nontight = false;
+                if rng.chance(14) {
+                    let outs: Vec<&fol::Predicate> = task
+                        .user_guide
+                        .entries
+                        .iter()
+                        .filter_map(|e| match e {
+                            fol::UserGuideEntry::OutputPredicate(p) if p.arity <= 3 => Some(p),
+                            _ => None,
+                        })
+                        .collect();
+                    if !outs.is_empty() {
+                        let p = *rng.pick(&outs);
+                        let args: Vec<String> = (1..=p.arity).map(|i| format!("X{i}")).collect();
+                        let atom = if args.is_empty() { p.symbol.clone() } else { format!("{}({})", p.symbol, args.join(", ")) };
+                        if let Ok(extra) = format!("{atom} :- {atom}.").parse::<anthem::syntax_tree::asp::mini_gringo::Program>() {
+                            task.program.rules.extend(extra.rules);
+                            nontight = true;
+                        }
+                    }
+                }
                 let (programs, specification) = match &task.specification {
                     Either::Left(p) => (vec![p.to_string(), task.program.to_string()], None),
                     Either::Right(sp) => (vec![task.program.to_string()], Some(sp.to_string())),
@@ -558,7 +581,7 @@ fn gen_case(rng: &mut Rng, want_external: Option<bool>) -> Sexp {
                     proof_outline: if task.proof_outline.formulas.is_empty() && rng.chance(85) { None } else { Some(task.proof_outline.to_string()) },
                 };
                 // the generators rarely bypass; non-tight programs are frequent among the adversarial ones
-                let bypass = task.bypass_tightness || rng.chance(20);
+                let bypass = task.bypass_tightness || rng.chance(if nontight { 50 } else { 20 });
                 break 'task (roles, task.decomposition, task.direction, task.formula_representation, bypass, task.simplify, task.break_equivalences);
             }
         }
